@@ -206,6 +206,8 @@ pub struct Ctx {
     pub cli: PathBuf,
     pub scratch: PathBuf,
     pub counter: AtomicU64,
+    /// Landlock ABI (the child is always confined to its sandbox root, see confine.rs)
+    pub landlock_abi: i32,
     /// grid labels whose process actually ran
     pub ran: std::sync::Mutex<std::collections::BTreeSet<String>>,
 }
@@ -266,8 +268,13 @@ fn run_cli(ctx: &Ctx, sb: &Sandbox, c: &Case) -> std::io::Result<(Vec<String>, R
         .stdin(Stdio::null())
         .stdout(Stdio::piped())
         .stderr(Stdio::piped());
+    // kernel-level confinement: no write-type access outside this case's sandbox root.
+    // If it cannot be set up the child is not started at all.
+    let ruleset = crate::confine::ruleset_for(&sb.root, ctx.landlock_abi)?;
+    let ruleset_fd = std::os::fd::AsRawFd::as_raw_fd(&ruleset);
     unsafe {
-        cmd.pre_exec(|| {
+        cmd.pre_exec(move || {
+            crate::confine::restrict_self(ruleset_fd)?;
             // CPU seconds / file size bounds for the child (harness safety, not an oracle)
             let cpu = libc::rlimit {
                 rlim_cur: 120,
@@ -288,6 +295,7 @@ fn run_cli(ctx: &Ctx, sb: &Sandbox, c: &Case) -> std::io::Result<(Vec<String>, R
         });
     }
     let child = cmd.spawn()?;
+    drop(ruleset);
     let pid = child.id();
     let (tx, rx) = std::sync::mpsc::channel();
     let h = std::thread::spawn(move || {
@@ -484,12 +492,28 @@ fn eval_in(check: &Check, ctx: &Ctx, c: &Case, sb: &Sandbox) -> CaseResult {
     }
 
     // ---- judge
+    let mode = if c.preserve { "preserve-paths" } else { "flat" };
+    let chain = if c.patches.is_empty() { "single-archive" } else { "patch-chain" };
     if outside.is_empty() {
+        // Everything inside the sandbox is writable for the child (same uid, own directories), so
+        // EACCES can only come from the Landlock confinement: the child tried to create or modify
+        // something outside the sandbox root, i.e. certainly outside OUT.
+        if run.stderr.contains("Permission denied") && run.stderr.contains("os error 13") {
+            check.bump("blocked_outside_sandbox", 1);
+            return Err(Fail::new(
+                format!("escape:{mode}:blocked-outside-sandbox:{chain}"),
+                format!(
+                    "`warcraft-rs {}` tried to write outside the sandbox root (denied by the harness's Landlock confinement): exit {:?}; stderr: {}; names: {:?}",
+                    args.join(" "),
+                    run.exit,
+                    truncate(&tail(&run.stderr, 300), 320),
+                    c.all_names().iter().take(8).collect::<Vec<_>>(),
+                ),
+            ));
+        }
         return Ok(());
     }
     // cause: which name explains the first offending path?
-    let mode = if c.preserve { "preserve-paths" } else { "flat" };
-    let chain = if c.patches.is_empty() { "single-archive" } else { "patch-chain" };
     let mut cause = "unexplained";
     let mut culprit = String::new();
     'find: for ch in &outside {
